@@ -13,8 +13,11 @@ pub mod c08;
 pub mod c09;
 pub mod c10;
 pub mod c11;
+pub mod c12;
+pub mod c15;
 pub mod c16;
 pub mod c17;
+pub mod c18;
 
 pub struct Prop {
     pub id: &'static str,
@@ -36,8 +39,11 @@ pub fn all() -> Vec<Prop> {
         Prop { id: "C09", level: "exploration", run: c09::run, replay: c09::replay },
         Prop { id: "C10", level: "exploration", run: c10::run, replay: c10::replay },
         Prop { id: "C11", level: "fault_enumeration", run: c11::run, replay: c11::replay },
+        Prop { id: "C12", level: "exploration", run: c12::run, replay: c12::replay },
+        Prop { id: "C15", level: "exploration", run: c15::run, replay: c15::replay },
         Prop { id: "C16", level: "exploration", run: c16::run, replay: c16::replay },
         Prop { id: "C17", level: "exploration", run: c17::run, replay: c17::replay },
+        Prop { id: "C18", level: "exploration", run: c18::run, replay: c18::replay },
     ]
 }
 
@@ -130,6 +136,7 @@ pub fn replay(id: &str, path: &str) -> i32 {
 pub fn child(cmd: &str, _args: &[String]) -> i32 {
     match cmd {
         "child-gen-golden" => c10::gen_golden(),
+        "child-digest" => c15::child_digest(_args),
         _ => 2,
     }
 }
